@@ -4,14 +4,17 @@ proof:          lean/PymtlVerif/Props/C11.lean (stable_is_fixed_point, watchOKB_
                 false_loop_eq_acyclic)
 correspondence: cyclic designs (false loops through disjoint slices, convergent true loops, divergent loops, loops with an
                 update_once block) under DynamicSchedulePass and Mamba2020; the real inner order and the real watch list are read
-                from the generated SCC wrapper and given to the model's `iterate`; the model also evaluates `watchOKB` on them
+                from the generated SCC wrapper and given to the model's `iterate`; the model also evaluates `watchOKB` on them;
+                the LOOP STRUCTURE of every generated wrapper is parsed into Model/LoopIR.IR and `IR.ok` is evaluated on it
+                (Props/C11w.lean: ok => the wrapper is `iterate`); the same kinds as method-driven tops under OpenLoopCLPass
+                (harness/checks/c11_openloop.py)
 direct oracle:  (a) after return every block re-run changes nothing, (b) false loops equal the acyclic reference, (c) divergent
                 loops raise UpblkCyclicError with <= 100 sweeps, (d) acyclic-only passes raise UpblkCyclicError at scheduling time
 """
 import sys
 
 from ..common import leanio, rtlgen
-from . import c11_scc, c01_mamba
+from . import c11_scc, c01_mamba, c11_openloop
 from ..common.leanio import InfraError
 
 PID = 'C11'
@@ -21,7 +24,8 @@ THEOREMS = ['PV.C11.' + t for t in ['stable_sound', 'watchOKB_sound', 'iterate_s
                                     'fixed_point_accepted', 'false_loop_eq_acyclic', 'iterate_frame', 'runEntries_frame', 'fixed_transfer', 'run_idem', 'whole_schedule']] + c11_scc.THEOREMS
 THEOREM_MODULE = {t: c11_scc.MODULE for t in c11_scc.THEOREMS}
 TRUSTED = [
-  'Model/Rtl.lean iterate/runEntries: the SCC super-block template (clone watched, run group, compare, at most 100 sweeps)',
+  'Model/Rtl.lean iterate/runEntries = the SCC super-block: no longer taken on trust for the loop shape - the generated wrapper is parsed into '
+  'Model/LoopIR.IR on every run and PV.C11w.run_eq_iterate applies when the driver evaluates IR.ok = 1 (see c11_openloop.TRUSTED for the parser)',
   'the watch list and inner order are parsed from the generated wrapper source (inspect.getsource) by rtlgen.parse_scc',
 ] + c11_scc.TRUSTED
 ASSUMPTIONS = ['self-dependence inside one block (reading a bit the same block writes) is outside the hypotheses (GenDAGPass ignores it)']
@@ -32,11 +36,18 @@ THEOREMS = THEOREMS + c01_mamba.THEOREMS_SCC
 THEOREM_MODULE.update({t: c01_mamba.MODULE for t in c01_mamba.THEOREMS_SCC})
 TRUSTED = TRUSTED + c01_mamba.TRUSTED
 # ---- end
+# ---- begin: loop structure of the generated wrappers + cyclic designs under OpenLoopCLPass (harness/checks/c11_openloop.py)
+DRIVERS = DRIVERS + c11_openloop.DRIVERS
+MODULE = MODULE + [c11_openloop.MODULE]
+THEOREMS = THEOREMS + c11_openloop.THEOREMS
+THEOREM_MODULE.update({t: c11_openloop.MODULE for t in c11_openloop.THEOREMS})
+TRUSTED = TRUSTED + c11_openloop.TRUSTED
+# ---- end
 
 RULE = ('cyclic designs of seven kinds (false / false loop through separately written fields of a bitstruct read as a whole / convergent pair / convergent ring of 3-4 / ring of 10-14 mostly branchy blocks (cut into several meta blocks by Mamba2020) / divergent / update_once-in-loop) plus upstream and '
         'downstream blocks, random operators and widths; a case = (design, pass group); all are non-trivial; distinct by (source, flow)')
 
-RULE = RULE + ' | ' + c11_scc.RULE
+RULE = RULE + ' | ' + c11_scc.RULE + ' | ' + c11_openloop.RULE
 
 def fn1(rng, w, e):
   """a random unary function of width w"""
@@ -307,6 +318,7 @@ def run(ck):
   rng = ck.rng
   n = 250 if ck.tier == 'quick' else 8000
   lines, meta = [], []
+  wrappers = c11_openloop.WrapperChecks(ck)
   for _ in range(n):
     kind = rng.choice(['false', 'false', 'conv', 'ring', 'ring', 'div', 'divcond', 'bigring', 'structloop', 'hostloop', 'hostloop', 'structwhole'])
     d, expect = gen_cyclic(rng, kind)
@@ -346,6 +358,10 @@ def run(ck):
       scc_ids = next((e[1] for e in entries if e[0] == 'scc'), None)
       if scc_ids is None:
         ck.disagreement('cyclic design scheduled without an SCC block', {'source': src, 'flow': flow}, 'scc expected', str(entries)); continue
+      # the loop structure of every generated wrapper: parsed into the IR of Model/LoopIR.lean, `IR.ok` evaluated by the driver;
+      # the variables it COMPARES must be the variables it snapshots (the watch list the model is given)
+      for fn_, e_ in zip([x[1] for x in rs.schedule_entries() if x[0] == 'scc'], [x for x in entries if x[0] == 'scc']):
+        wrappers.add(d, fn_, flow, {'source': src, 'flow': flow}, want_watch=e_[2])
       trace, status = [], 'ok'
       comb_blks = [b for b in rs.top._dag.final_upblks]
       refsim = rtlgen.RefSim(d) if kind in ('false', 'structloop') else None
@@ -387,6 +403,7 @@ def run(ck):
       meta.append(('watch', d, src, flow, entries, cycles, trace, status))
       lines.append(leanio.line('rtl', 'entries', d.sexp(), [list(x) for x in entries]))
       meta.append(('entries', d, src, flow, entries, cycles, trace, status))
+  wrappers.finish()
   replies = ck.drv('rtl').batch(lines)
   for (what, d, src, flow, entries, cycles, trace, status), rep in zip(meta, replies):
     if what == 'entries':
@@ -428,9 +445,11 @@ def run(ck):
   ck.extra_cov['designs'] = n
   c11_scc.run(ck)
   c01_mamba.run(ck, part='scc')
+  c11_openloop.run(ck)
 
 def replay(ck, data):
   if (data.get('case') or {}).get('pass') in ('Mamba2020', 'HeuTopoUnrollSim'): return c01_mamba.replay(ck, data)
   if (data.get('case') or {}).get('scc'): return c11_scc.replay(ck, data)
+  if (data.get('case') or {}).get('openloop') or (data.get('case') or {}).get('openloop_gap'): return c11_openloop.replay(ck, data)
   print(data.get('kind'), data.get('signature')); print(str(data.get('detail'))[:1500])
   return rtlgen.replay_source(ck, data.get('case') or {})
